@@ -138,6 +138,32 @@ def run(ctx):
         if not any(e.startswith("E" + US) for e in evs):
             ctx.violation("malformed literal %r is not reported through the error callback: %r" % (m, evs), {"kind": "malformed", "text": m})
     ctx.count(len(MALFORMED), nontrivial_n=len(MALFORMED))
+    # a quoted literal with one invalid escape: reported as ONE malformed literal - the first event is an
+    # error located at the opening quote, and nothing of the literal's interior comes out as a token of
+    # its own.  Every printable character after the backslash that is not an escape letter of the
+    # (documented, lenient) escape grammar, in strings and character constants, alone and with context.
+    import string
+    bad_after = [c for c in string.punctuation + " " if c not in "\\'\"?._~!=&^-"]
+    bad_lits = []
+    for c in bad_after:
+        bad_lits += ['"a\\%sb"' % c, '"\\%s"' % c, "'\\%s'" % c, 'L"x\\%sy"' % c, '"a\\%s", "b"' % c, "f('\\%s', 1)" % c]
+    n_bad = 0
+    for m in bad_lits:
+        sp = run_model([req("c10", m)])[0] if False else None
+        evs = [e for e in py_scan(m).split("\t") if e]
+        q = min(i for i in (m.find('"'), m.find("'")) if i >= 0)
+        first_bad = next((e for e in evs if e.startswith("E" + US) or (e.startswith("T" + US) and unesc(e.split(US)[2]) not in ("f", "(", "L"))), None)
+        n_bad += 1
+        if first_bad is None or not first_bad.startswith("E" + US):
+            ctx.violation("a literal with the invalid escape in %r is not reported as one malformed literal: first event after the prefix is %r" % (m, first_bad), {"kind": "malformed", "text": m})
+            continue
+        col = int(first_bad.split(US)[3])
+        if col != q + 1 and not (m.startswith("L") and col == q):
+            ctx.violation("the malformed literal in %r is reported at column %d, its opening quote is at column %d" % (m, col, q + 1), {"kind": "malformed", "text": m})
+        interior = [unesc(e.split(US)[2]) for e in evs if e.startswith("T" + US)]
+        if any(t in ("a", "b", "x", "y", c) for t in interior for c in ";,%@#$") and not m.endswith(', "b"') and not m.startswith("f("):
+            ctx.violation("the interior of the malformed literal in %r comes out as tokens %r" % (m, interior), {"kind": "malformed", "text": m})
+    ctx.count(n_bad, nontrivial_n=n_bad)
 
 
 def replay(ctx, payload):
